@@ -411,3 +411,50 @@ func clipRingVertexSpecs(thorough bool) []composeSpec {
 	sp.maxIter, sp.maxVisits = 0, 0 // the ring clipper's loops are bounded by the input
 	return []composeSpec{sp}
 }
+
+// ---------------------------------------------------------------------------
+// clip.intersect: the cut point is on the line through a and b and on a box line the code names
+
+type intersectCtx struct {
+	a, b  [2]*fterm
+	edges [4]*fterm // minx, miny, maxx, maxy
+	code  int
+}
+
+func clipIntersectSpecs(thorough bool) []composeSpec {
+	var cases []composeCase
+	for _, code := range []int{1, 2, 4, 8, 5, 6, 9, 10} {
+		code := code
+		cases = append(cases, composeCase{fmt.Sprintf("region code %04b", code), func(it *Interp, s *State) ([]AV, interface{}) {
+			box, edges := symBox(it)
+			a, b := freePointAV(it), freePointAV(it)
+			return []AV{box, IntV{Known: true, V: int64(code)}, a, b}, &intersectCtx{a: pointTerms(it, a), b: pointTerms(it, b), edges: edges, code: code}
+		}})
+	}
+	return []composeSpec{{
+		entry: "clip.intersect", terms: true, cases: cases,
+		desc: "the point returned lies on the line through a and b (its cross product with b-a vanishes identically) and has, on the matching axis, exactly the coordinate of a box line named by the region code (bit 1 left, 2 right, 4 bottom, 8 top)",
+		judge: func(it *Interp, cx interface{}, st *State) string {
+			ctx := cx.(*intersectCtx)
+			r := pointTerms(it, st.result[0])
+			if r[0] == nil || r[1] == nil {
+				return "the point returned is not a followed quantity"
+			}
+			onLine := false
+			for bit, ax := range map[int][2]int{1: {0, 0}, 2: {0, 2}, 4: {1, 1}, 8: {1, 3}} {
+				if ctx.code&bit != 0 && termEqual(r[ax[0]], ctx.edges[ax[1]]) {
+					onLine = true
+				}
+			}
+			if !onLine {
+				return "no coordinate of the point returned is the coordinate of a box line the region code names"
+			}
+			// (r - a) x (b - a) == 0
+			cross := termAdd(termMul(termAdd(r[0], ctx.a[0], -1), termAdd(ctx.b[1], ctx.a[1], -1)), termMul(termAdd(r[1], ctx.a[1], -1), termAdd(ctx.b[0], ctx.a[0], -1)), -1)
+			if cross == nil || !cross.isZero() {
+				return "the point returned is not on the line through a and b"
+			}
+			return ""
+		},
+	}}
+}
